@@ -935,6 +935,14 @@ def gen_case(rng: Any) -> dict[str, Any]:
     forward = all(_fwd(i, q) for i, q in enumerate(paths[1:]))
     if forward:
         chain_pos = {nm: i for i, nm in enumerate(names)}
+    # a stale pooled connection at some hop of the chain: the first request(s) of a kind are cut, `fetch_url` resets the session
+    # and retries the whole fetch once, and the origin answers that second pass (with whatever the hop does: forward, rejected,
+    # dead, secret-bearing … target).  Sequential request kinds only, so the occurrence counters stay deterministic.
+    if hops and rng.random() < 0.3:
+        i = rng.randrange(hops)
+        kinds = ["head", "get"] + (["range"] if presigned else [])
+        for k in rng.sample(kinds, rng.randint(1, len(kinds))):
+            paths[1 + i][k] = [{"fault": "disconnected"} for _ in range(rng.choice([1, 1, 1, 2]))] + paths[1 + i][k]
     ui, q, fr, secrets = gen_url_decor(rng, presigned)
     host = rng.choice(["{O}", "{O}", "{O}", "{L}"])
     if rng.random() < 0.04:
@@ -1048,6 +1056,21 @@ def corpus() -> list[dict[str, Any]]:
         mk("http://{O}/obj", [dict(objp, head=[dict(head, cl=str(n - 1))], range=[dict(rng_ok, cr={"auto": "*"})])], {"parallelThreshold": 1}),
         mk("http://{O}/obj", [dict(objp, head=[dict(head, cl=str(n - 1))], range=[{"status": 206, "body": {"k": "slice", "extra": 0, "short": 0}}])],
            {"parallelThreshold": 1}),
+        # stale connection on the first pass, and the retried pass is redirected to a target the validator rejects
+        mk(sec_url, [dict(hop("/r0", "/forbidden/obj"), head=[{"fault": "disconnected"}, {"status": 302, "location": "/forbidden/obj"}]),
+                     dict(objp, path="/forbidden/obj")], secrets=sec),
+        mk(sec_url, [dict(hop("/r0", "http://{L}/obj"), head=[{"fault": "disconnected"}, {"status": 307, "location": "http://{L}/obj"}]), objp],
+           secrets=sec),
+        mk(sec_url, [hop("/r0", "/r1"),
+                     dict(hop("/r1", "/forbidden/obj"), head=[{"status": 405}], get=[{"fault": "disconnected"}, {"status": 302, "location": "/forbidden/obj"}]),
+                     dict(objp, path="/forbidden/obj")], secrets=sec),
+        mk(f"http://{{O}}/r0?X-Amz-Signature={S['sig']}&X-Amz-Credential={S['cred']}",
+           [dict(hop("/r0", "http://{L}/obj"), range=[{"fault": "disconnected"}, {"status": 302, "location": "http://{L}/obj"}]), objp],
+           secrets=[S["sig"], S["cred"]]),
+        mk(sec_url, [dict(hop("/r0", "/obj"), head=[{"fault": "disconnected"}, {"status": 302, "location": "/obj"}]), objp], secrets=sec,
+           chain_pos={"/r0": 0, "/obj": 1}),
+        mk(sec_url.replace("/r0", "/forbidden/r0"), [dict(hop("/forbidden/r0", "/obj"), head=[{"fault": "disconnected"}, {"status": 302, "location": "/obj"}]),
+                                                      objp], secrets=sec),
         # a 206 that serves a different range of the right length
         mk("http://{O}/obj", [dict(objp, range=[dict(rng_ok, cr="bytes 1000-1023/1024")])], {"parallelThreshold": 1, "chunkSize": 24}),
     ]
